@@ -537,6 +537,15 @@ def _levels(tier):
     add('3-cycles, every kind triple', [(a, 'p') for a in cyc3])
     add('uniform: every shape on <=2 nodes with <=3 arcs x 2 kinds on every arc',
         [(gen.uniform(s, k), 'p') for s in sh[1] + sh[2] if len(s) <= 3 for k in pairs])
+    desc = []
+    for n, m in [(1, 1), (1, 2), (2, 1), (2, 2), (3, 2)]:
+        desc.extend(gen.graphs(n, m, kinds=gen.DESC_ALPHABET))
+    desc.extend(a for a in gen.graphs(3, 3, kinds=gen.DESC_ALPHABET) if _cycle3(a))
+    desc = [a for a in desc if any(k in gen.DESC_KINDS for _, _, k in a)]
+    add('description kinds (:rtype:, string annotations, :type q:) mixed with call and attribute:'
+        ' all graphs, <=3 nodes, <=2 atoms, and all 3-cycles', [(a, 'p') for a in desc])
+    add('description kinds: all cyclic graphs, <=2 nodes, <=2 atoms, with base definitions',
+        [(a, 'b') for a in desc if _cyclic(a) and max(max(i, j) for i, j, _ in a) <= 1])
     if tier == 'quick':
         return levels
     add('all other graphs, <=3 nodes, <=2 atoms, with base definitions',
@@ -618,8 +627,8 @@ def run(ctx):
     done_levels = []
     exhaustive = True
     samples = []
-    kind_hits = {k: 0 for k in gen.KINDS}
-    kind_live = {k: 0 for k in gen.KINDS}
+    kind_hits = {k: 0 for k in gen.ALL_KINDS}
+    kind_live = {k: 0 for k in gen.ALL_KINDS}
     layouts = {}
     warn_programs = {}
     obs_max = {}
